@@ -270,7 +270,12 @@ def r2_1(ctx, R, only_in=None):
                         if i_e[0] == "proj" and i_e[2] == ("@Ready", ".0", "@Some", ".0", ".0") and i_e[1][0] == "call" and i_e[1][3] == dbb \
                                 and x_e[0] == "proj" and x_e[2] == ("@Ready", ".0", "@Some", ".0", ".1") and x_e[1][3] == dbb:
                             okv = True
-        ctx.ob("R2.1", b, "returns-same-(i,x)@%s" % _site_label(b, dbb), okv, b.loc(dbb))
+        if not re.match(r"core::task::Poll<core::option::Option<\(usize, ", b.locals[0]):
+            # a caller that consumes the (index, output) itself (join_all writes it into output[index] -- C07 R7.1 decides
+            # that pairing) hands no (i, x) on
+            ctx.ob("R2.1", b, "consumes-(i,x)-itself@%s" % _site_label(b, dbb), True, b.loc(dbb), "returns %s" % b.locals[0])
+        else:
+            ctx.ob("R2.1", b, "returns-same-(i,x)@%s" % _site_label(b, dbb), okv, b.loc(dbb))
     ctx.floor("R2.1", "future-drain-callers", len(callers), 1)
     # in DRAIN itself
     for d in R.drain_fns:
@@ -434,6 +439,26 @@ def r2_4(ctx, R, counter_field):
                     det = "every one of %d feasible arrivals crosses groups.is_empty()" % na if ok else "arrival without emptiness test: %s" % (bad,)
                 except RuntimeError as e_:
                     det = str(e_)
+            if not ok:
+                # the exhausted group is kept in the vector instead of being removed and put back: Ready(None) where the group
+                # polled last answered None and the conditions on (number of groups, cursor) leave only "it is the only group"
+                from groups import arrival_grids, cursor_events
+                ce = cursor_events(ctx, R, b)
+                inner_ = [bb for bb, t, fn in b.calls() if fn and not b.is_cleanup(bb)
+                          and re.search(RE_STREAM_POLL_NEXT, fn["def"]) and callee_body(ctx.facts, fn) is not None]
+                if ce is not None and len(inner_) == 1 and not direct_sites(b, r"alloc::vec::Vec::<.*>::(push|insert)$"):
+                    ag = arrival_grids(ctx, b, fl, inner_[0], rb, ce[0])
+                    from adapters import classify_poll
+                    only = bool(ag) and all(sat <= {(1, 0)} for _, sat in ag)
+                    # ... and on those arrivals the inner poll is known to have answered Ready(None)
+                    from lib_flow import arrival_knowledge
+                    ak = arrival_knowledge(b, fl, rb)
+                    dest = place_str(b.term(inner_[0])["dest"])
+                    none_known = bool(ak) and all(classify_poll(dest, k_) == "None" for k_ in ak)
+                    removed = any(x in pth for pth, _ in ag for x, _, _ in direct_sites(b, r"alloc::vec::Vec::<.*>::(remove|swap_remove|pop)$"))
+                    if only and none_known and not removed:
+                        ok = True
+                        det = "the only group (len == 1, cursor == 0 on all %d arrivals) answered Ready(None) and stays in the vector" % len(ag)
             ctx.ob("R2.4", b, "ready-none-behind-groups.is_empty#%d" % k, ok, b.loc(rb), det)
     # all other poll functions of collection types: None only forwarded
     for b in ctx.facts.fn_bodies():
@@ -518,6 +543,34 @@ def r2_5(ctx, R):
             sinks = pushes + yields
             stops = b.returns() + [ibb]
             ok = bool(ents) and all(b.must_pass(e, stops, sinks) for e in ents)
+            if ents and not ok:
+                # per feasible path (the verdict of an inlined helper -- `Some(data)` when in turn, `None` after parking it --
+                # is re-examined at a join): from the point the output exists up to the next inner poll / the return, the path
+                # parks it in the heap or returns Ready(Some(<it>))
+                from lib_flow import sensitive_paths, PathEval
+                ok = True
+                nseg = 0
+                for kind, path, know in sensitive_paths(b, fl, 2):
+                    if kind != "return":
+                        continue
+                    for i, bb in enumerate(path):
+                        if bb not in ents or ibb not in path[:i]:
+                            continue
+                        end = len(path)
+                        for j in range(i + 1, len(path)):
+                            if path[j] == ibb:
+                                end = j
+                                break
+                        seg = path[i:end]
+                        nseg += 1
+                        hit = any(x in pushes for x in seg)
+                        if not hit and end == len(path):
+                            r = PathEval(b, path).local_expr(0)
+                            hit = r[0] == "agg" and r[1].endswith("Poll::Ready") and r[2][0][0] == "agg" and r[2][0][1].endswith("Option::Some") \
+                                and any(c[3] == ibb for c in expr_calls(r))
+                        if not hit:
+                            ok = False
+                ok = ok and nseg > 0
             ctx.ob("R2.5", b, "inner-output-reaches-return-or-heap", ok, b.loc(ibb),
                    "entries %s sinks: push %s yield %s" % (sorted(ents), [b.loc(x) for x in pushes], [b.loc(x) for x in yields]))
     ctx.floor("R2.5", "ordered-poll_next", n, 2)
@@ -552,14 +605,25 @@ def r2_6(ctx, R):
         dec_blocks = {bb for bb, f in decs}
         bad = []
         npaths = 0
-        for k, p in enumerate_paths(b, succ, loop_visits=2):
-            if k != "return":
-                continue
-            npaths += 1
-            nd = sum(1 for x in p if x in dec_blocks)
-            ny = 1 if any(x in yields for x in p[-8:]) and _last_ret_assign(b, p) in yields else 0
-            if nd != ny:
-                bad.append(p)
+        from groups import cursor_events
+        ce = cursor_events(ctx, R, b)
+        if ce is not None:
+            # per feasible (variant-sensitive) path, the returned value classified along the path
+            for p, ev in ce[1]:
+                npaths += 1
+                nd = sum(1 for x in p if x in dec_blocks)
+                ny = 1 if ev and ev[-1][0] == "RET" and ev[-1][1] == "Some" else 0
+                if nd != ny:
+                    bad.append(p)
+        else:
+            for k, p in enumerate_paths(b, succ, loop_visits=2):
+                if k != "return":
+                    continue
+                npaths += 1
+                nd = sum(1 for x in p if x in dec_blocks)
+                ny = 1 if any(x in yields for x in p[-8:]) and _last_ret_assign(b, p) in yields else 0
+                if nd != ny:
+                    bad.append(p)
         ctx.ob("R2.6", b, "counter-decremented-iff-yield", not bad, d_loc(b),
                "field %s, %d paths, %d bad" % (fld, npaths, len(bad)), path=bad[:1] or None)
         # push side: the struct's push = crate fn with store +1 to same field
